@@ -2,7 +2,7 @@
    Only statements; each is closed by [exact] of a lemma in Proof/StateCache.v.
 
    [sc_run (sc_init m) ops] runs any history of reads (GetTrieNode), inserts (of new objects or of
-   objects the caller holds and may have mutated), deletes, in-place mutations of held objects,
+   objects the caller holds and may have mutated; also inserts the trie rejects), deletes, in-place mutations of held objects,
    transaction commits / discards and block commits / discards over the model of
    StateContext + TransactionCache / BlockCache / StateCache + trie.  The mode [m] says whether the
    entity type's Clone and CopyFrom are deep; the theorems need only a deep Clone (every type in
@@ -52,14 +52,16 @@ Print Assumptions C07_shallow_clone_refuted.
 
 (* Non-vacuity, with the copy discipline of partitions.Partitions (deep Clone, shallow CopyFrom):
    insert, commit, read through the block cache, mutate the returned object, read again, delete in
-   a transaction that is discarded, commit the block and read through the state cache. *)
+   a transaction that is discarded, commit the block and read through the state cache, an insert
+   the trie rejects followed by reads in the same and in the next transaction. *)
 Example C07_example :
   let m := {| md_clone_deep := true; md_copy_deep := false |} in
   snd (sc_run (sc_init m)
          [SInsert 1 5; SCommitTxn; SGet 1; SMutate 1%nat 7; SGet 1; SDelete 1; SGet 1; SDiscardTxn;
-          SGet 1; SCommitBlock; SGet 1; SInsertH 2 1%nat; SGet 2; SGet 3]) =
+          SGet 1; SCommitBlock; SGet 1; SInsertH 2 1%nat; SGet 2; SGet 3; SInsertRej 1; SGet 1; SCommitTxn; SGet 1]) =
   [SOOk; SOOk; SOData (Some (5, 5)); SOOk; SOData (Some (5, 5)); SOOk; SOData None; SOOk;
-   SOData (Some (5, 5)); SOOk; SOData (Some (5, 5)); SOOk; SOData (Some (7, 7)); SOData None].
+   SOData (Some (5, 5)); SOOk; SOData (Some (5, 5)); SOOk; SOData (Some (7, 7)); SOData None;
+   SOErr; SOData (Some (5, 5)); SOOk; SOData (Some (5, 5))].
 Proof. vm_compute. reflexivity. Qed.
 
 (* The third clause at the place where it is decided, Chain.updateState (model Model/ChainState.v,
